@@ -9,8 +9,9 @@ class G:
     names; '!' = error recovery symbol); pubs: start nonterminals.  An alternative may be a tuple
     (symbols, flags) with flags containing 'fallible'."""
 
-    def __init__(self, name, terms, rules, pubs=None, note=""):
+    def __init__(self, name, terms, rules, pubs=None, note="", inline=()):
         self.name, self.terms, self.note = name, list(terms), note
+        self.inline = set(inline)            # nonterminals marked #[inline]
         self.rules = {}
         self.flags = {}
         for nt, alts in rules.items():
@@ -183,6 +184,8 @@ class G:
         L.append("    }\n}")
         for nt, alts in self.rules.items():
             vis = "pub " if nt in self.pubs else ""
+            if nt in self.inline:
+                L.append("#[inline]")
             L.append("%s%s: Tree = {" % (vis, nt))
             for i, a in enumerate(alts):
                 syms, plist = [], []
@@ -289,6 +292,65 @@ def corpus():
         "S": [["A", "B"]],
         "A": [([], ["fallible"]), (["a", "A"], ["fallible"])],
         "B": [([], ["fallible"]), ["b"]]}))
+    return C
+
+
+def with_inline(g, subset):
+    """the same grammar with the given nonterminals marked #[inline]"""
+    rules = {nt: [(list(a), sorted(g.flags[(nt, i)])) for i, a in enumerate(alts)] for nt, alts in g.rules.items()}
+    return G(g.name + "_inl_" + "_".join(sorted(subset)), g.terms, rules, pubs=list(g.pubs), inline=subset)
+
+
+def inlinable_subsets(g, r, n=2):
+    """random non-empty sets of non-pub nonterminals whose induced reference graph is acyclic"""
+    cands = [nt for nt in g.nts if nt not in g.pubs]
+    out = []
+    for _ in range(n * 4):
+        if not cands or len(out) >= n:
+            break
+        sub = set(x for x in cands if r.random() < 0.6) or {r.choice(cands)}
+        # acyclic among themselves?
+        order, left = [], set(sub)
+        while left:
+            free = [x for x in left if not any(s in left for a in g.rules[x] for s in a)]
+            if not free:
+                break
+            order += free; left -= set(free)
+        if left:
+            # drop the members of cycles
+            sub -= left
+        if sub and sub not in out:
+            out.append(sub)
+    return out
+
+
+def inline_corpus():
+    C = []
+    C.append(G("inl_pair", ["id", ":", "=", "[", "]", ";"], {
+        "S": [["P", "=", "P"], ["K", "K", "K", ";"], ["id", "P", "K"]],
+        "P": [["id", ":", "id"]], "K": [["[", "id", "]"]]}))
+    C.append(G("inl_nest", ["x", "y", "z", "b", "c"], {
+        "S": [["A", "A", "z"]],
+        "A": [["B", "x", "B"], ["y"]],
+        "B": [["b", "c"], []]}))
+    C.append(G("inl_eps", ["a", "b", "c", "o", "p"], {
+        "S": [["a", "O", "b", "O", "c"], ["S", "O", "a"]],
+        "O": [[], ["o", "p"]]}))
+    C.append(G("inl_fall", ["x", "y", "z", "+", "-"], {
+        "S": [(["F", "+", "F"], ["fallible"]), ["S", "-", "F", "F"]],
+        "F": [(["x", "y"], ["fallible"]), (["z"], ["fallible"]), ([], ["fallible"])]}))
+    C.append(G("inl_fall2", ["x", "y", "z"], {
+        "S": [["X", "Y"], ["S", "z", "X", "Y"]],
+        "X": [(["x"], ["fallible"]), (["x", "x"], ["fallible"])],
+        "Y": [(["y"], ["fallible"])]}))
+    C.append(G("inl_expr", ["+", "*", "(", ")", "x", "q"], {
+        "E": [["E", "+", "T"], ["T"]],
+        "T": [["T", "*", "F", "F"], ["F"]],
+        "F": [["A", "A"], ["(", "E", ")"]],
+        "A": [["x"], ["x", "q"]]}))
+    C.append(G("inl_chain", ["a", "b", "c", "d"], {
+        "S": [["X", "X", "d"], ["d", "X"]],
+        "X": [["Y", "c", "Y"]], "Y": [["Z", "Z"]], "Z": [["a", "b"], ["b"]]}))
     return C
 
 
